@@ -14,9 +14,38 @@ package trafficshape
 //@ func (*Conn).GetNextActionFromByte
 //@   trusted
 //@   ensures result != nil
+// GetCurrentThrottle (verified, C18): the interval that ends before the search point - the last one that starts at or
+// before `start` - decides: when it reaches beyond `start` (or is open-ended and last) the connection is throttled
+// with THAT interval's bandwidth, and a throttle is only ever reported for an interval that contains `start`.
+// sort.Search is assumed to return an index with f(result) (if in range) and !f(result-1) (if positive), which holds
+// for any input; it is specialised to the closure by the anchored assumption below.
+//@ ghost var gcInd int
+//@ ghost var gcSearched bool
+//@ extern func sort.Search
+//@   ensures 0 <= result && result <= n
+//@ pred shapesOK(c *Conn) = c != nil && c.Shapes != nil && c.Context != nil && !c.Shapes.RWMutex.wheld && c.Shapes.RWMutex.rheld >= 0 &&
+//@      (forall k string :: has(c.Shapes.M, k) ==> c.Shapes.M[k] != nil && c.Shapes.M[k].Shape != nil && !c.Shapes.M[k].RWMutex.wheld && c.Shapes.M[k].RWMutex.rheld >= 0 && c.Shapes.M[k] != c.Shapes &&
+//@          (forall i int :: 0 <= i && i < len(c.Shapes.M[k].Shape.Throttles) ==> c.Shapes.M[k].Shape.Throttles[i] != nil))
+//@ pred thr(c *Conn) = c.Shapes.M[c.Context.URLRegex].Shape.Throttles
 //@ func (*Conn).GetCurrentThrottle
-//@   trusted
+//@   serves C18
+//@   safe index
+//@   requires c != nil
+// (well-formedness of the shape table - no nil entries, locks consistent - is established by the listener and the
+// handler; it is assumed here, not demanded from callers)
+//@   at entry 0 before assume shapesOK(c)
+//@   modifies gcInd, gcSearched, sync.RWMutex.rheld
+//@   noframe
+//@   at entry 0 before set gcSearched = false
+//@   at call 0 of Search after set gcInd = result
+//@   at call 0 of Search after set gcSearched = true
+//@   at call 0 of Search after assume (result < len(throttles) ==> throttles[result].ByteStart > start) && (result > 0 ==> throttles[result - 1].ByteStart <= start)
 //@   ensures result != nil
+//@   at return all before assert[a-throttle-is-reported-only-for-an-interval-that-contains-the-offset] result.ThrottleNow ==> gcSearched && gcInd > 0 &&
+//@        thr(c)[gcInd - 1].ByteStart <= start && (thr(c)[gcInd - 1].ByteEnd > start || (gcInd == len(thr(c)) && thr(c)[gcInd - 1].ByteEnd == -1)) && result.Bandwidth == thr(c)[gcInd - 1].Bandwidth
+//@   at return all before assert[the-interval-reaching-beyond-the-offset-is-honoured] gcSearched && gcInd > 0 &&
+//@        (thr(c)[gcInd - 1].ByteEnd > start || (gcInd == len(thr(c)) && thr(c)[gcInd - 1].ByteEnd == -1)) ==> result.ThrottleNow && result.Bandwidth == thr(c)[gcInd - 1].Bandwidth
+//@   ensures[every-lock-is-left-as-it-was-found] forall m *sync.RWMutex :: m.rheld == old(m.rheld)
 //@ func (*Bucket).SetCapacity
 //@   trusted
 //@ func (*Listener).GetTrafficShapedConn
